@@ -1,6 +1,7 @@
 package verifsim
 
 import (
+	"syscall"
 	"fmt"
 	"path/filepath"
 	"time"
@@ -112,7 +113,7 @@ func init() {
 	register(&CheckDef{
 		ID:    "C02",
 		Level: "exploration",
-		Rule:  "seeded generation of SQLite rollback-journal pager programs (modify/append/free page sets, cache spills = multi-segment journals, synced/unsynced counts, commit, rollback before/after spill, lock-without-write, first transaction on an empty file, shrink with truncate after finalisation) x journal mode (DELETE/TRUNCATE/PERSIST) x page size x LZ4, driven through the real litefs/fuse handlers by a simulated kernel; a case is one executed program; distinct = distinct (mode, pagesize, outcome, grow/shrink/same, spill count, sync mode, crosses-256-block) tuple; non-trivial = run in which at least one commit advanced the position and was checked against the reference image",
+		Rule:  "seeded generation of SQLite rollback-journal pager programs (modify/append/free page sets, cache spills = multi-segment journals, synced/unsynced counts, commit, rollback before/after spill, lock-without-write, first transaction on an empty file, shrink with truncate after finalisation) x journal mode (DELETE/TRUNCATE/PERSIST) x page size x LZ4, driven through the real litefs/fuse handlers by a simulated kernel; the last program of a third of the runs meets one disk error (EIO/ENOSPC at a seeded LiteFS system call): if SQLite is told the commit failed and rolls back, the position, the image read through the mount and the capture of the next transaction must be those of the old position; a case is one executed program; distinct = distinct (mode, pagesize, outcome, grow/shrink/same, spill count, sync mode, crosses-256-block) tuple; non-trivial = run in which at least one commit advanced the position and was checked against the reference image",
 		Run:   runC02,
 		NonTrivial: func(r *Run) bool {
 			return r.Stats["c02.commit.checked"] > 0
@@ -145,6 +146,8 @@ func runC02(r *Run) {
 	bigStart := maxPages >= 700 && t.Chance(1, 3) // start beyond the first checksum block
 	r.Cfg["big_start"] = bigStart
 	lockPageRun := r.Thorough() && pageSize == 65536 && t.Chance(1, 12)
+	faultLast := t.Chance(1, 3)
+	r.Cfg["disk_error_in_last_program"] = faultLast
 	r.Cfg["page_size"], r.Cfg["mode"], r.Cfg["lz4"], r.Cfg["keep_jfd"], r.Cfg["programs"] = pageSize, mode, compress, keepJFD, nprog
 	r.Cfg["lock_page_run"] = lockPageRun
 	if lockPageRun {
@@ -209,9 +212,74 @@ func runC02(r *Run) {
 			r.Count("c02.wal-excursion")
 		}
 		prev := db.Pos()
+		// In some runs the last program meets one disk error (EIO / ENOSPC at a
+		// seeded system call of LiteFS): SQLite either never notices, or gets an
+		// error and rolls the transaction back - which must leave the image of
+		// the position LiteFS reports.
+		// (not on the transaction that creates the database: LiteFS knows no page
+		// size yet and the rollback of that one is outside the statement, as above)
+		faulty := faultLast && i == nprog-1 && !lockPageRun && cur > 0
+		if faulty {
+			prog.Outcome = OutCommit
+			n.OS.FailNth = int64(t.Range(1, 16))
+			n.OS.FailErr = []error{syscall.EIO, syscall.ENOSPC}[t.Next(2)]
+		}
 		res := c.WriteTx(prog, ref)
+		if faulty {
+			n.OS.FailNth = 0
+		}
 		now := db.Pos()
 		desc := fmt.Sprintf("%s size %d->%d mod=%d spill=%d nosync=%v => %s", prog.Outcome, cur, prog.NewSize, len(prog.Modify), len(prog.SpillAt), prog.NoSync, res.Outcome)
+		if faulty && n.OS.FiredAt != "" && res.Outcome == "error" && res.After != nil {
+			// the error reached SQLite after the commit point (sync of the
+			// finalised journal, cut of the file): the transaction stands
+			r.Count("c02.disk-error.after-commit-point")
+			if !r.Check(!n.Exited, "c02.disk-error", "a disk error at %s stopped the node (Exit %d)", n.OS.FiredAt, n.ExitCode) {
+				break
+			}
+			if r.Check(now.TXID == prev.TXID+1, "c02.disk-error", "a commit whose journal was finalised before the disk error at %s reached SQLite (%s) moved the position %s -> %s", n.OS.FiredAt, res.FailedAt, prev, now) {
+				r.Check(uint64(now.PostApplyChecksum) == res.After.Checksum(), "c02.pos-vs-image", "position checksum %s, from-scratch checksum of SQLite's image %016x", now.PostApplyChecksum, res.After.Checksum())
+			}
+			break
+		}
+		if faulty && n.OS.FiredAt != "" && res.Outcome == "error" {
+			r.Count("c02.disk-error.rolled-back")
+			r.Logf("prog %d: %s, disk error at %s, SQLite got %v at %s; pos %s -> %s", i, desc, n.OS.FiredAt, res.Errno, res.FailedAt, prev, now)
+			if !r.Check(!n.Exited, "c02.disk-error", "a disk error at %s stopped the node (Exit %d)", n.OS.FiredAt, n.ExitCode) {
+				break
+			}
+			if !r.Check(now.PostApplyChecksum == prev.PostApplyChecksum && now.TXID <= prev.TXID+1, "c02.disk-error", "SQLite was told that its commit failed (%v at %s, disk error at %s) and rolled back; the position went %s -> %s", res.Errno, res.FailedAt, n.OS.FiredAt, prev, now) {
+				break
+			}
+			prev = now
+			// what the next connection sees (it rolls a hot journal back first, if
+			// the failed connection could not do so itself)
+			got, e := rd.ReadTxRecover()
+			now = db.Pos()
+			if !r.Check(now.PostApplyChecksum == prev.PostApplyChecksum && now.TXID <= prev.TXID+1, "c02.disk-error", "the rollback of the hot journal left by the failed commit moved the position %s -> %s", prev, now) {
+				break
+			}
+			prev = now
+			if r.Check(e == 0, "c02.disk-error", "after a commit that failed with a disk error at %s and was rolled back, reading the database fails: %v", n.OS.FiredAt, e) {
+				if d := DiffImages(got, ref); d != "" {
+					r.Failf("c02.disk-error", "after a commit that failed with a disk error at %s and was rolled back, the image read through the mount is not the image of position %s: %s", n.OS.FiredAt, now, d)
+					break
+				}
+			}
+			// ... and the next transaction is captured as usual
+			next := GenProgram(t, ref.N(), maxPages, LockPgno(pageSize))
+			next.Outcome = OutCommit
+			res2 := c.WriteTx(next, ref)
+			now2 := db.Pos()
+			if !r.Check(res2.Outcome == OutCommit, "c02.disk-error", "the transaction after a failed, rolled-back commit (disk error at %s) is refused at %s: %v", n.OS.FiredAt, res2.FailedAt, res2.Errno) {
+				break
+			}
+			if r.Check(now2.TXID == prev.TXID+1, "c02.disk-error", "the transaction after a failed, rolled-back commit moved the position %s -> %s", prev, now2) {
+				checkLTXForCommit(r, n, dbName, prev, now2, ref, res2.After, "c02")
+				r.Check(uint64(now2.PostApplyChecksum) == res2.After.Checksum(), "c02.pos-vs-image", "position checksum %s, from-scratch checksum of SQLite's image %016x", now2.PostApplyChecksum, res2.After.Checksum())
+			}
+			break
+		}
 		progs = append(progs, desc)
 		r.Logf("prog %d: %s pos %s -> %s", i, desc, prev, now)
 		shape := "same"
